@@ -183,6 +183,44 @@ func pemVariants(g *pk.Gen, bits []int) (out []enc, tags []string) {
 	return
 }
 
+// keyFuzz: key parameters that are not PEM at all: control characters only, white space, single bytes, PEM armour without
+// content, random bytes
+func keyFuzz(g *pk.Gen) (out []enc, tags []string) {
+	add := func(b []byte, t string) { out = append(out, enc{0, b, g.Rng.Bytes(32)}); tags = append(tags, t) }
+	for i, k := range []string{"\n", "\r\n", "\x00", "\n\n\x00", " ", "\t", "-", "-----", "-----BEGIN RSA PUBLIC KEY-----", "-----BEGIN RSA PUBLIC KEY-----\n",
+		"-----END RSA PUBLIC KEY-----\n", "-----BEGIN RSA PUBLIC KEY-----\n\n-----END RSA PUBLIC KEY-----", "-----BEGIN -----\n-----END -----\n", "\xff\xfe", "\n-----BEGIN RSA PUBLIC KEY-----\nAAAA"} {
+		add([]byte(k), fmt.Sprintf("keyfuzz-fixed;%d", i))
+	}
+	n := 25
+	if g.Thorough {
+		n = 600
+	}
+	for i := 0; i < n; i++ {
+		var b []byte
+		switch g.Rng.Intn(4) {
+		case 0: // control characters and white space only
+			for k := 0; k < g.Rng.Range(1, 6); k++ {
+				b = append(b, []byte{0, '\n', '\r', ' ', '\t'}[g.Rng.Intn(5)])
+			}
+		case 1:
+			b = g.Rng.Bytes(g.Rng.Range(1, 40))
+		case 2: // a valid key with some bytes replaced
+			b = append([]byte{}, PemOf(Key(1024), "RSA PUBLIC KEY")...)
+			for k := 0; k < g.Rng.Range(1, 3); k++ {
+				b[g.Rng.Intn(len(b))] = byte(g.Rng.Intn(256))
+			}
+		default: // a valid key cut somewhere, possibly followed by control characters
+			b = append([]byte{}, PemOf(Key(1024), "RSA PUBLIC KEY")...)
+			b = b[:g.Rng.Intn(len(b))]
+			for k := 0; k < g.Rng.Intn(3); k++ {
+				b = append(b, []byte{0, '\n', '\r'}[g.Rng.Intn(3)])
+			}
+		}
+		add(b, "keyfuzz-random")
+	}
+	return
+}
+
 // field edits of the valid encrypted script
 func fieldEdits(g *pk.Gen, e enc) (out [][][]Item, tags []string) {
 	add := func(r [][]Item, t string) { out = append(out, r); tags = append(tags, t) }
@@ -389,6 +427,11 @@ func Generate(g *pk.Gen, prop string) {
 			}
 			job(mk(validEnc(e), cfg, &e, "enc;"+ptags[i]), g.Rng.Intn(3))
 		}
+		kf, ktags := keyFuzz(g)
+		for i, e := range kf {
+			e := e
+			job(mk(validEnc(e), randCfg(g, msgEncrypt4, 30), &e, "enc;"+ktags[i]), g.Rng.Intn(3))
+		}
 		// passwords that exactly fill the key (with the usual 32-byte nonce), one byte less, one byte more
 		for _, b := range bits {
 			e := enc{b, PemOf(Key(b), "RSA PUBLIC KEY"), g.Rng.Bytes(32)}
@@ -435,6 +478,27 @@ func Generate(g *pk.Gen, prop string) {
 		// unsupported / odd modes
 		for _, m := range []int{1, 14, 30, 2, 36} {
 			job(mk(ve, randCfg(g, m, 30), &e0, fmt.Sprintf("mode;%d", m)), 0)
+		}
+	}
+	if prop == "C10" {
+		// no reply makes the login crash: key material fuzz, field edits and multi-edits of both flows (fn 32)
+		fn = 32
+		kf, ktags := keyFuzz(g)
+		for i, e := range kf {
+			e := e
+			job(mk(validEnc(e), randCfg(g, msgEncrypt4, 30), &e, "login-"+ktags[i]), g.Rng.Intn(3))
+		}
+		e0 := enc{bits[0], PemOf(Key(bits[0]), "RSA PUBLIC KEY"), g.Rng.Bytes(32)}
+		eds, tags := fieldEdits(g, e0)
+		for i, r := range eds {
+			job(mk(r, randCfg(g, msgEncrypt4, 40), &e0, "login-"+tags[i]), g.Rng.Intn(3))
+		}
+		nm := 100
+		if g.Thorough {
+			nm = 3000
+		}
+		for i := 0; i < nm; i++ {
+			job(mk(multiEdit(g, validEnc(e0)), randCfg(g, msgEncrypt4, 40), &e0, "login-multi-edit"), g.Rng.Intn(3))
 		}
 	}
 	if prop == "C09" || prop == "" {
